@@ -399,6 +399,43 @@ func reconCase(seed uint64, idx int) *CaseSpec {
 			n = len(again.Add.NH) + len(again.Add.NHG) + len(again.Add.TopLevel) + len(again.Replace.NH) + len(again.Replace.NHG) + len(again.Replace.TopLevel) + len(again.Delete.NH) + len(again.Delete.NHG) + len(again.Delete.TopLevel)
 		}
 		t.Add("rc.again %d", n)
+		// a second reconciliation of the same target, now towards an empty RIB with the same
+		// instances: whatever the first round left behind in the target's bookkeeping (reference
+		// counters) shows when everything has to be taken down again, in the documented order
+		E := rib.New(sT.nis[0], rib.DisableForwardReferences())
+		for _, ni := range sT.nis[1:] {
+			E.AddNetworkInstance(ni)
+		}
+		var id3 atomic.Uint64
+		id3.Store(base + 500000)
+		down, err := reconciler.New(reconciler.NewLocalRIB(E), reconciler.NewLocalRIB(T)).Reconcile(context.Background(), &id3)
+		if err != nil {
+			t.Add("rc.round2 -1 0 0")
+		} else {
+			nops, nfailed := 0, 0
+			for _, l := range [][]*spb.AFTOperation{down.Add.NH, down.Add.NHG, down.Add.TopLevel, down.Replace.NH, down.Replace.NHG, down.Replace.TopLevel, down.Delete.TopLevel, down.Delete.NHG, down.Delete.NH} {
+				for _, op := range l {
+					nops++
+					var oks, fails []*rib.OpResult
+					var err error
+					if op.Op == spb.AFTOperation_DELETE {
+						oks, fails, err = T.DeleteEntry(op.NetworkInstance, op)
+					} else {
+						oks, fails, err = T.AddEntry(op.NetworkInstance, op)
+					}
+					if err != nil || len(fails) != 0 || len(oks) != 1 {
+						nfailed++
+					}
+				}
+			}
+			lf2, _, err := entsLine(T)
+			if err != nil {
+				return t, err
+			}
+			left := 0
+			fmt.Sscan(lf2, &left) // the line starts with the number of entries
+			t.Add("rc.round2 %d %d %d", nops, nfailed, left)
+		}
 		t.Add("end")
 		return t, nil
 	}
